@@ -44,7 +44,7 @@ def parse_kv(line):
         out[m.group(1)].append(v)
     flat = {}
     for k, vs in out.items():
-        if k == 'subst':
+        if k in ('subst', 'callrename'):
             flat[k] = []
             for v in vs:
                 a, b = v.split('`=>`')
@@ -334,6 +334,13 @@ class Extractor:
                     body = body[:m.start() + mm.end()] + text.strip() + ': ' + body[m.start() + mm.end():]
             rules.append('R3')
         body = self.rewrite_body(body, rules, 'R' if kv.get('r6') == 'always' else self.mode)
+        # calls to a generic helper that was instantiated per type: follow the instantiation
+        for a, b in kv.get('callrename', []):
+            body2 = re.sub(r'\b' + re.escape(a) + r'\b', b, body)
+            if body2 == body:
+                raise LostAnchor('%s: fn %s: call to %s not found' % (rel, kv['fn'], a))
+            body = body2
+            rules.append('R1-inst-call(%s->%s)' % (a, b))
         rules = sorted(set(rules), key=rules.index)
 
         eff_mode = self.mode
